@@ -8,4 +8,5 @@ CONSTANTS
   MutClosingFirst = FALSE
   MutSharedCtx = FALSE
   MutEarlyReturn = FALSE
+  MutCheckThenClose = FALSE
 CHECK_DEADLOCK FALSE
